@@ -4,8 +4,95 @@ import (
 	"encoding/json"
 	"fmt"
 	"math/rand"
+	"sort"
 	"sync"
+
+	ysgo "github.com/remieven/ysgo"
 )
+
+// siblingOf: the same program except that every line of the nodes that do not come from the
+// first reader says something else.  Two runners whose FIRST readers are byte-identical and whose
+// other readers define the same node titles with different contents are still independent.
+func siblingOf(c *Case, id int) *Case {
+	raw, _ := json.Marshal(c)
+	s := &Case{}
+	if json.Unmarshal(raw, s) != nil || len(c.Readers) < 2 {
+		return nil
+	}
+	s.ID = id
+	seen := map[int]bool{}
+	var mark func(b int)
+	mark = func(b int) {
+		if b == 0 || seen[b] {
+			return
+		}
+		seen[b] = true
+		body := s.Bodies[b-1]
+		for i := range body {
+			st := &body[i]
+			switch st.K {
+			case "line":
+				st.Text = append(st.Text, Part{Lit: " alt"})
+			case "opts":
+				for k := range st.Opts {
+					st.Opts[k].Text = append(st.Opts[k].Text, Part{Lit: " alt"})
+					mark(st.Opts[k].Body)
+				}
+			case "if":
+				for k := range st.Clauses {
+					mark(st.Clauses[k].Body)
+				}
+			}
+		}
+	}
+	for i := c.Readers[0]; i < len(s.Nodes); i++ {
+		mark(s.Nodes[i].Body)
+	}
+	if len(seen) == 0 {
+		return nil
+	}
+	return s
+}
+
+// sharedSnapshotRun: a runner that starts from a snapshot taken by another runner.  The events
+// of the runner that took the snapshot come first (runner 1), then the restore and the walk of
+// the new runner (runner 2): the whole list is a trace of the case.
+func sharedSnapshotRun(c *Case, ci int, prelude []recEvent, texts []string, snap *ysgo.Snapshot, seed int64) []recEvent {
+	rc := &recorder{rnd: rand.New(rand.NewSource(seed)), maxCalls: 25}
+	rc.events = append(rc.events, prelude...)
+	h, err := newHost(c, texts)
+	if err != nil {
+		return nil
+	}
+	var rerr error
+	panicked := !guarded(func() { rerr = h.dr.RestoreAt(snap) })
+	ok := rerr == nil && !panicked
+	rc.emit(recEvent{Ev: "restore", ID: c.ID, R: 2, H: 1, Ok: &ok})
+	if ok {
+		rc.walk(h, c, 2)
+	}
+	return rc.events
+}
+
+// snapshotPrelude drives a runner for a few calls and takes a snapshot.
+func snapshotPrelude(c *Case, ci int, seed int64) (events []recEvent, texts []string, snap *ysgo.Snapshot) {
+	rnd := rand.New(rand.NewSource(seed))
+	rc := &recorder{rnd: rnd, maxCalls: 1 + rnd.Intn(8)}
+	l := canonicalLayout()
+	texts = renderCase(c, l)
+	rc.emit(recEvent{Ev: "reset", Case: ci, ID: c.ID, Path: 0, Layout: l.describe(), Texts: texts})
+	h, err := newHost(c, texts)
+	if err != nil {
+		return nil, nil, nil
+	}
+	rc.walk(h, c, 1)
+	if !guarded(func() { snap = h.dr.Snapshot() }) || snap == nil {
+		return nil, nil, nil
+	}
+	sc := h.readSnap(snap)
+	rc.emit(recEvent{Ev: "snap", ID: c.ID, R: 1, H: 1, Snap: &sc})
+	return rc.events, texts, snap
+}
 
 // verifh core concurrent --cases cases.ndjson --out trace.ndjson --diffs diffs.ndjson --g G --rounds R
 //
@@ -37,6 +124,41 @@ func coreConcurrent(m map[string]string) error {
 	}
 	rnd := rand.New(rand.NewSource(Seed()*53 + 11))
 	lines, runs, diffs := 0, 0, 0
+	// sibling programs (same first reader, other readers differ) are appended to the cases
+	maxID := 0
+	for _, c := range cases {
+		if c.ID > maxID {
+			maxID = c.ID
+		}
+	}
+	sibling := map[int]int{} // index of a case -> index of its sibling
+	for i, n := 0, len(cases); i < n; i++ {
+		if sib := siblingOf(cases[i], maxID+1); sib != nil {
+			maxID++
+			sibling[i] = len(cases)
+			cases = append(cases, sib)
+		}
+	}
+	if f := m["cases-out"]; f != "" {
+		cw, err := newNDJSON(f)
+		if err != nil {
+			return err
+		}
+		for _, c := range cases {
+			if err := cw.Write(c); err != nil {
+				return err
+			}
+		}
+		if err := cw.Close(); err != nil {
+			return err
+		}
+	}
+	var withSibling []int
+	for i := range sibling {
+		withSibling = append(withSibling, i)
+	}
+	sort.Ints(withSibling)
+	nSib, nShared := 0, 0
 	for round := 0; round < rounds; round++ {
 		gg := g
 		if round%3 == 2 {
@@ -44,11 +166,19 @@ func coreConcurrent(m map[string]string) error {
 		}
 		idx := make([]int, gg)
 		same := round%4 == 1
+		siblings := round%4 == 3 && len(withSibling) > 0
+		shared := round%4 == 2
 		first := rnd.Intn(len(cases))
+		if siblings {
+			first = withSibling[rnd.Intn(len(withSibling))]
+		}
 		for i := range idx {
-			if same {
+			switch {
+			case siblings && i%2 == 1:
+				idx[i] = sibling[first]
+			case same || siblings || shared:
 				idx[i] = first
-			} else {
+			default:
 				idx[i] = rnd.Intn(len(cases))
 			}
 		}
@@ -56,9 +186,39 @@ func coreConcurrent(m map[string]string) error {
 		for i := range seeds {
 			seeds[i] = rnd.Int63()
 		}
-		one := func(i int) []recEvent {
+		preludeSeed := rnd.Int63()
+		var prelude []recEvent
+		var ptexts []string
+		var snap *ysgo.Snapshot
+		if shared {
+			// one snapshot value handed to every goroutine of the round
+			prelude, ptexts, snap = snapshotPrelude(cases[first], first+1, preludeSeed)
+			shared = snap != nil
+		}
+		if shared {
+			nShared++
+		}
+		if siblings {
+			nSib++
+		}
+		one := func(i int, alone bool) []recEvent {
+			if shared {
+				if alone {
+					// alone: its own (equal) snapshot, taken by a replay of the same prelude
+					p, t, s := snapshotPrelude(cases[first], first+1, preludeSeed)
+					if s == nil {
+						return nil
+					}
+					return sharedSnapshotRun(cases[first], first+1, p, t, s, seeds[i])
+				}
+				return sharedSnapshotRun(cases[first], first+1, prelude, ptexts, snap, seeds[i])
+			}
 			rc := &recorder{rnd: rand.New(rand.NewSource(seeds[i])), maxCalls: 30, layouts: true}
-			if err := rc.drive(idx[i]+1, cases[idx[i]], 1+i%3); err != nil {
+			path := 1 + i%3
+			if siblings {
+				path = 0 // the canonical layout: the first readers of the two programs are byte-identical
+			}
+			if err := rc.drive(idx[i]+1, cases[idx[i]], path); err != nil {
 				return nil
 			}
 			return rc.events
@@ -71,14 +231,14 @@ func coreConcurrent(m map[string]string) error {
 			go func(i int) {
 				defer wg.Done()
 				<-start
-				conc[i] = one(i)
+				conc[i] = one(i, false)
 			}(i)
 		}
 		close(start)
 		wg.Wait()
 		for i := 0; i < gg; i++ {
 			runs++
-			solo := one(i)
+			solo := one(i, true)
 			cb, _ := json.Marshal(conc[i])
 			sb, _ := json.Marshal(solo)
 			if string(cb) != string(sb) {
@@ -119,7 +279,8 @@ func coreConcurrent(m map[string]string) error {
 			}
 		}
 	}
-	fmt.Printf("{\"rounds\":%d,\"runs\":%d,\"events\":%d,\"diffs\":%d}\n", rounds, runs, lines, diffs)
+	fmt.Printf("{\"rounds\":%d,\"runs\":%d,\"events\":%d,\"diffs\":%d,\"sibling_rounds\":%d,\"shared_snapshot_rounds\":%d,\"siblings\":%d}\n",
+		rounds, runs, lines, diffs, nSib, nShared, len(sibling))
 	if err := meta.Close(); err != nil {
 		return err
 	}
